@@ -39,6 +39,37 @@ Calibration (false alarms of the first version, corrected)
 * reductions / average / nonzero over zero-length axes belong to the generic reduction machinery (C22), not to numpy.ma
   semantics: rejected for these families (zero-length axes stay in for construction, masked_*, elementwise, filled).
 * the label of a fully masked 0-d reference (`np.ma.masked`) does not carry the operation: one mechanism.
+
+Parameter audit (kinds ``x_*``, an own case stream after the original one)
+* x_layout: da.concatenate / da.stack (2-3 inputs, masked and plain mixed, different dtypes and fill values, random axis incl.
+  negative, zero-length pieces), rechunk, slicing (steps, negative steps, integer indices, bounds ON block boundaries) of masked
+  arrays; data and mask against numpy.ma, for rechunk / slicing also the fill value (numpy keeps it through views) or, for a
+  seeded 40 %, ``filled()`` with the array's OWN fill value afterwards; a third of the float cases carry a NaN fill value.
+  The fill value of a concatenation / stack is not compared (numpy.ma resets it, dask keeps a common one).
+* x_construct: masked data + a further mask (keep_mask default and False), ``dtype=``, the mask as a nested list, a numpy masked
+  array as data; x_like: ones_like / zeros_like with and without ``dtype=``.
+* x_mfunc: masked_values with rtol / atol / shrink on float data perturbed by 1e-6 .. 0.3 (counter: the keyword changes the
+  mask), fix_invalid with and without fill_value on plain and masked input (mask, and the DATA at the invalid cells).
+* x_reduce: ``dtype=`` for sum / prod / mean, blocks of > 255 elements (also not the last block), 4-d arrays with pairwise
+  different lengths, 9-16 blocks of one element with split_every=2 (several combine levels).
+* x_state: set_fill_value followed by filled / rechunk / slicing / abs on the same object, and the same expression built BEFORE
+  the call (numpy.ma evaluates it eagerly with the old fill value; the lazily built dask expression must give the same).
+* x_elem: ``**`` (masked, plain and Python-scalar exponents, scalar base), NumPy ufuncs called on the dask masked array.
+* x_sib (vf/mon/siblings.py): two collections differing in ONE parameter (fill_value of filled / masked_array / fix_invalid /
+  set_fill_value, the bounds / value of masked_inside / masked_greater / masked_equal, rtol / atol of masked_values, the condition
+  of masked_where, axis of count, ddof of var, returned of average) must not share keys and must keep their values when computed
+  in one graph (half of the cases); equality includes the fill value and the data under the mask.
+Calibration of the audit families
+* numpy.ma's mean(dtype=<integer>) is sum / count = float64 while NumPy proper and dask return the integer dtype: mean only
+  with floating ``dtype=``.
+* fill value of empty results (zero-length input, empty slice) is not compared: dask returns a plain empty ndarray from rechunk.
+* the mask as a nested list only for arrays without a zero-length axis ([[]] does not carry the shape (1, 0, 1)).
+* reference copies are detached (``_detached``): ``mx.copy()`` shares the 0-d fill value array with ``mx`` and
+  np.ma.set_fill_value writes into it in place, so the reference used to change the array the dask graph reads (route
+  from_array) - which also hid a dask-side defect in the original ``setfill`` family.
+* the follow-up of x_state is ``abs(x)``, not ``x + 0`` (Python-scalar operands: numpy.ma dtype quirk, see above).
+* not generated: hard_mask / harden_mask (da.ma has no such functions; ``hard_mask=True`` passed through masked_array is lost
+  when blocks are merged, but the statement speaks of data and mask only).
 """
 from __future__ import annotations
 
@@ -60,7 +91,11 @@ RULE = ("cases = (operation family, data shape/dtype/seed, data chunking, mask f
         "greater../less../not_equal, elementwise masked x {masked, plain dask, numpy, scalar} with broadcasting, reductions "
         "(sum mean min max prod std var any all count; axis, keepdims, split_every), filled, getdata, getmaskarray, "
         "set_fill_value, average, nonzero, where. Complete part: every chunking of a (2,3) array x every mask over its 6 "
-        "cells under sum(axis=0/1/None), filled and masked + plain. non-trivial = some operand axis split into >= 2 chunks; "
+        "cells under sum(axis=0/1/None), filled and masked + plain. Parameter-audit stream (1500 / 25000 cases): concatenate / "
+        "stack / rechunk / slicing of masked arrays (NaN fill values), further construction forms (masked data + mask, keep_mask, "
+        "dtype=, list mask, numpy masked data, ones/zeros_like), masked_values rtol/atol/shrink, fix_invalid, reductions with "
+        "dtype= / blocks > 255 elements / 4-d / several combine levels, set_fill_value followed by another operation, pow and "
+        "NumPy-ufunc calls, sibling pairs differing in one parameter. non-trivial = some operand axis split into >= 2 chunks; "
         "distinct = distinct (family, op, shapes, dtype, chunks, mask flavour, parameters).")
 ASSUMPTIONS = ["numpy.ma (NumPy 2.x) defines the expected data, mask, dtype and fill value",
                "sync scheduler (threads for a tenth)"]
@@ -73,6 +108,18 @@ FLOORS = {"quick": {"evaluations": 2600, "distinct_nontrivial": 1700,
                        "counters": {"compared": 20000, "with_allmasked_chunk": 10000, "reference_has_masked_output": 9000,
                                     "reduce_with_fully_masked_cell": 1600, "with_nomask": 1500},
                        "max_skipped_fraction": 0.3}}
+# parameter-audit families (kinds x_*): ~45 % of the smallest count of the five quick seeds; thorough = quick floor x stream ratio
+# (25000 / 1500) x 0.8
+_XF = {"construct_forms": 69, "elem_extra": 52, "elem_numpy_ufunc_on_dask": 22, "elem_pow": 22, "fix_invalid_cases": 22,
+       "fix_invalid_with_invalid_cells": 6, "layout_cases": 142, "layout_concat_stack_inputs": 143, "layout_nan_fill_value": 12,
+       "layout_then_filled_with_own_fill_value": 56, "like_cases": 22, "like_dtype_keyword": 16,
+       "masked_values_keyword_changes_mask": 11, "masked_values_keywords": 50, "reduce_block_gt_255": 20, "reduce_class_4d": 18,
+       "reduce_class_big": 20, "reduce_class_deep": 20, "reduce_class_dtype": 18, "siblings_built": 97,
+       "siblings_computed_together": 45, "siblings_with_different_values": 20, "state_followups": 45}
+FLOORS["quick"]["counters"].update(_XF)
+FLOORS["thorough"]["counters"].update({k: int(v * 25000 / 1500 * 0.8) for k, v in _XF.items()})
+for _t in ("quick", "thorough"):
+    FLOORS[_t]["sets"] = {"construct_form_kinds": 5, "layout_kinds": 6, "sibling_kinds": 11}
 EXHAUSTIVE_SPACE = ("all 4x2=8 chunkings of a (2,3) array x all 64 masks under sum(axis=None|0|1), filled() and "
                     "masked + plain")
 CLAIM = ("Every generated masked-array expression was computed by the real dask.array(.ma) and by numpy.ma on the same data, "
@@ -91,6 +138,13 @@ PENDING = {
         "da.ma.average(weights=, returned=True): sum of weights of a fully masked cell is 0.0, numpy.ma returns it masked",
     "reduce:std-var:ddof>=count&scalar-output:mask":
         "var/std over all axes with ddof >= number of unmasked elements gives nan, numpy.ma gives masked",
+    # parameter audit (fixes: fixes_ready/C33_01_set_fill_value_mutates_input_blocks.patch, C33_02_ma_like_functions_ignore_dtype.patch)
+    "set_fill_value:set_fill_value:followed-by-op:built-before-values":
+        "da.ma.set_fill_value writes the new fill value into its INPUT blocks (shared 0-d fill value array of x.copy()): an "
+        "expression built before the call, and the source numpy array of from_array, show the new fill value",
+    "like:ones|zeros_like:dtype=:dtype":
+        "da.ma.ones_like / zeros_like / empty_like(dtype=) announce the dtype but compute blocks of the input dtype "
+        "(map_blocks keeps dtype= for itself)",
     "reduce:count:0-d:AxisError@array/ma.py:_chunk_count":
         "da.ma.count of a 0-d array whose mask is nomask passes axis=() to np.ma.count, which rejects it",
 }
@@ -265,6 +319,8 @@ def _extra_case(rng):
                         "mk": rng.choice(MASKKINDS[:-2]), "yk": rng.choice(("masked", "masked", "plain")),
                         "fv": rng.choice((d["fv"], d["fv"], rng.choice(FILLS)))} for _ in range(rng.randint(1, 2))]
         d["sl"] = _rand_slices(rng, shape, d["chunks"])
+        if d["dtype"].startswith("float") and rng.random() < 0.35:
+            d["fv"] = "nan"            # the fill value class whose equality is special (nan != nan) through merges of blocks
         d["then_filled"] = rng.random() < 0.4
     elif kind == "x_construct":
         d["form"] = rng.choice(("masked-data+mask", "masked-data+mask", "keep_mask=False", "dtype=", "mask-list", "np-masked-data"))
@@ -847,6 +903,10 @@ def _run_extra(case, ctx, kind, shape, chunks, dtype, seed, mk, via, fv, zero):
             _check(ctx, case, "construct", "masked_array", flags, lambda: np.ma.masked_array(x, mask=m, dtype=to, **kw),
                    lambda: da.ma.masked_array(da.from_array(x, chunks=chunks), mask=dm, dtype=to, **kw), fill=True)
         elif form == "mask-list":
+            if zero:
+                # Calibration: a nested list cannot spell the shape (1, 0, 1) ([[]] is (1, 0)); numpy.ma happens to accept any
+                # empty mask for empty data, dask checks the shapes
+                raise _Reject("nested-list mask of a zero-length array does not carry the shape")
             m, allm = _mask_for(seed, shape, chunks, "random" if mk in ("nomask", "scalarT", "scalarF") else mk)
             _check(ctx, case, "construct", "masked_array", flags, lambda: np.ma.masked_array(x, mask=m.tolist(), **kw),
                    lambda: da.ma.masked_array(da.from_array(x, chunks=chunks), mask=m.tolist(), **kw), fill=True)
@@ -888,7 +948,7 @@ def _run_extra(case, ctx, kind, shape, chunks, dtype, seed, mk, via, fv, zero):
                         ctx.count("masked_values_keyword_changes_mask")
                 except Exception:  # noqa: BLE001
                     pass
-            _check(ctx, case, "mfunc", op, _flags(inp, "+".join(sorted(kw)) or "defaults", zero),
+            _check(ctx, case, "mfunc", op, _flags(inp, "tolerance-keywords" if kw else "defaults", zero),
                    lambda: np.ma.masked_values(mx, case["v"], **kw), lambda: da.ma.masked_values(dmx, case["v"], **kw))
         else:
             cfv = case["call_fv"]
@@ -1076,6 +1136,7 @@ def _run_extra(case, ctx, kind, shape, chunks, dtype, seed, mk, via, fv, zero):
     if kind == "x_sib":
         fam, param = case["sib"].split(":")
         ctx.op("sib:" + case["sib"])
+        ctx.distinct("sibling_kinds", case["sib"])
         p1, p2 = [_fv(v) for v in case["p"]]
         special = fam in ("fix_invalid",)
         x = A.rand_data(seed, shape, dtype, special=special)
@@ -1137,7 +1198,7 @@ def _run_extra(case, ctx, kind, shape, chunks, dtype, seed, mk, via, fv, zero):
             ctx.exception(ex, prefix="sib:%s" % fam)
             return
         sch = "threads" if case.get("threads") else "sync"
-        S.check(ctx, fam, param, a, (lambda: build(p2, True)), same=_same_ma,
+        S.check(ctx, fam, param, a, (lambda: build(p2, True)), same=_same_ma, together=S.want_together(case, fraction=0.5),
                 compute=lambda coll: coll.compute(scheduler=sch),
                 compute_many=lambda colls: __import__("dask").compute(*colls, scheduler=sch),
                 describe={"first": repr(p1), "second": repr(p2)})
